@@ -167,3 +167,5 @@ def shrink(c):
     for k, (i, ps) in enumerate(log):
         for j in range(len(ps)):
             yield {"log": [[i2, (ps2[:j] + ps2[j + 1:]) if k2 == k else ps2] for k2, (i2, ps2) in enumerate(log)]}
+
+ANCHORS = [("swh/model/toposort.py", "toposort")]
